@@ -1306,6 +1306,8 @@ Proof.
       destruct Hx as [G' [EG I1]]. inversion EG; subst G'. eapply IHi2; eassumption.
     + inversion H; subst R. destruct o1; cbn [exit_ok] in Hx; try (inversion Hr; subst; exact Hx).
       destruct Hx as [G' [EG _]]. discriminate EG.
+  - (* IUse *) cbn [own_check] in H. cbn [run] in Hr. destruct (mem (root p) (o_own G)); [|discriminate H].
+    inversion H; inversion Hr; subst. exists G. split; [reflexivity | exact I].
   - (* INew *) eapply atomic_exit; try eassumption.
     + intros G' HG. eapply sound_INew; eassumption.
     + cbn [own_check]. destruct (writable d G); discriminate.
@@ -1455,6 +1457,7 @@ Proof. vm_compute. reflexivity. Qed.
 (* Every action that READS a place for a deep copy requires the owner of that place to be owned still: a reference
    derived from a value (element, field) cannot be used once the value was released or handed on. *)
 Lemma read_of_unowned_rejected : forall K G p, mem (root p) (o_own G) = false ->
+  own_check K (IUse p) G = None /\
   (forall d, own_check K (ICopy d p) G = None) /\
   (forall d, own_check K (IAbsorbCopy d p) G = None) /\
   (forall d a, own_check K (IConcat d a p) G = None) /\
@@ -1483,7 +1486,11 @@ Definition arm_copy_then_release : instr :=
    `falls` joins its arms, after the arm's scope released the list) *)
 Definition arm_release_then_copy : instr :=
   iseq [IIf (iseq [INew 0 32; INew 3 5; IAbsorb 0 3; IFree 0; ICopy 2 (PPart 0 1)]) (iseq [INew 1 4; IMove 2 1]); IFree 2].
+(* ... or merely read in place (compared) after the arm *)
+Definition arm_release_then_read : instr :=
+  iseq [IIf (iseq [INew 0 32; INew 3 5; IAbsorb 0 3; IFree 0]) ISkip; IUse (PPart 0 1)].
 Lemma derived_reference_must_not_outlive_owner :
   own_check ctx0 arm_copy_then_release (mkO [] []) = Some (Some (mkO [] [])) /\
-  own_check ctx0 arm_release_then_copy (mkO [] []) = None.
-Proof. split; vm_compute; reflexivity. Qed.
+  own_check ctx0 arm_release_then_copy (mkO [] []) = None /\
+  own_check ctx0 arm_release_then_read (mkO [] []) = None.
+Proof. repeat split; vm_compute; reflexivity. Qed.
